@@ -144,7 +144,7 @@ PROPS = {
  },
  "C10": {
   "module": "Zog.Props.C10",
-  "theorems": [P + "C10." + t for t in ["get_append", "inv_add", "issue_map_well_formed", "root_key", "nonroot_key", "render_is_joinSpec", "key_source_tag_first", "key_zog_tag_next", "key_schema_key_last", "key_validate", "issue_path_override", "sanitize_keys", "sanitize_list_length", "sanitize_get", "issues_addressed_at_every_depth", "node_files_below_itself"]] + ["Zog.Spec.proc_at"],
+  "theorems": [P + "C10." + t for t in ["get_append", "inv_add", "issue_map_well_formed", "root_key", "nonroot_key", "render_is_joinSpec", "key_source_tag_first", "tagName_plain", "key_source_tag_without_name", "key_zog_tag_next", "key_schema_key_last", "key_validate", "issue_path_override", "sanitize_keys", "sanitize_list_length", "sanitize_get", "issues_addressed_at_every_depth", "node_files_below_itself"]] + ["Zog.Spec.proc_at"],
   "streams": [st("path", 3000, 200000), eng(2500, 100000), eng(1200, 60000, "deep"), eng(300, 6000, "long"), st("front", 400, 10000)],
   "trusted_base": ["modelled, not verified: lean/Zog/Path.lean mirrors internals/PathBuilder.go String and internals/Issues.go ErrsMap.Add; keyFor mirrors internals/DataProviders.go GetKeyFromField"] + ENGINE_TB,
   "assumptions": ["no issue is addressed to the reserved key `$first` (IssuePath(\"$first\") is outside the property)"] + ENGINE_ASSUME,
